@@ -104,7 +104,7 @@ def build():
     info["extra_runners_ok"] = {
         name: (ROOT / "bin" / name).exists() and f"{name}_status=0" in (
             (BUILD / f"{name}.log").read_text() if (BUILD / f"{name}.log").exists() else "")
-        for name in ("scs_runner", "fmask_runner")}
+        for name in ("scs_runner", "fmask_runner", "vinfo_runner")}
     return info
 
 
